@@ -276,6 +276,23 @@ impl Attributes {
         })
     }
 
+    /// Number of per-file entries a raw (attributes) file holds, derived from its
+    /// flags and its size (each entry takes 32 + 64 + 128 + 1 bits, as flagged)
+    pub fn stored_entry_count(data: &[u8]) -> usize {
+        if data.len() < 8 {
+            return 0;
+        }
+        let flags = AttributeFlags::new(u32::from_le_bytes([data[4], data[5], data[6], data[7]]));
+        let bits_per_entry = if flags.has_crc32() { 32 } else { 0 }
+            + if flags.has_filetime() { 64 } else { 0 }
+            + if flags.has_md5() { 128 } else { 0 }
+            + if flags.has_patch_bit() { 1 } else { 0 };
+        if bits_per_entry == 0 {
+            return 0;
+        }
+        (data.len() - 8) * 8 / bits_per_entry
+    }
+
     /// Get attributes for a specific block index
     pub fn get_file_attributes(&self, block_index: usize) -> Option<&FileAttributes> {
         self.file_attributes.get(block_index)
